@@ -169,9 +169,94 @@ def c07_invariants(prog, o):
     return v
 
 
+# operators whose variants keep the line structure of the functions (a func_close line is still the closing brace of its
+# function): used for the scope-depth invariant on VIOLATING programs
+STRUCT_OPS = ["50_statement_after_control", "51_two_statements_on_a_line", "41_for_loop", "45_ternary", "46_assignment_in_condition",
+              "48_return_without_parentheses", "04_extra_indent_tab", "05_missing_indent_tab", "38_statement_after_brace",
+              "37_brace_on_signature_line", "24_declaration_in_block", "43_goto", "44_label", "42_switch", "64_comment_in_function",
+              "08_empty_line_in_function", "22_two_declarations_on_a_line", "74_directive_in_function", "80_struct_in_function"]
+
+
+def violating_chunks(tier):
+    out = []
+    seeds = (1, 2, 5, 6, 9, 10) if tier == "quick" else range(1, 60)
+    for sd in seeds:
+        for op in STRUCT_OPS:
+            out.append(dict(violating=op, seed=sd, kind="c"))
+    for mi in range(len(F.maximal_programs())):
+        for op in STRUCT_OPS:
+            out.append(dict(violating=op, maxi=mi, seed=mi, kind="c"))
+    return out
+
+
+def depth_invariants(prog, o):
+    """C07 on a VIOLATING program (one catalogue violation): the statements tile the token stream, and the scope is back at
+    file level right after the closing brace of every function and at the end of the file (known by construction: the
+    operators keep the function structure)"""
+    from harness.edits import c07_violations
+    v = list(c07_violations(o))
+    if o.kind != "ok" or not o.seginfo:
+        return v
+    # line (1-based) of every function's closing brace: the statement recognised there (the block end) must leave the
+    # analysis at file level (the monitor records the scope AFTER Context.update())
+    closes = {i + 1 for i, l in enumerate(prog.lines) if l.kind == "func_close"}
+    for (col, last, scope, lvl, rule, ln) in o.seginfo:
+        if ln in closes and not (scope == "GlobalScope" and lvl == 0):
+            v.append((f"C07:depth-not-zero-after-function:{rule}", f"after the closing brace of a function (line {ln}) the scope is {scope} (level {lvl})"))
+            break
+    return v
+
+
+def run_violating(chunk, ctx):
+    from harness import violations as V
+    ex = Explorer()
+    core.set_run(ex)
+    base = F.maximal_programs()[chunk["maxi"]] if "maxi" in chunk else F.program(chunk["seed"], ctx["tier"], chunk["kind"])
+    cands = V.candidates(base, chunk["violating"]) if not base.name.endswith(".h") else []
+    col = Collector(HNAME, seed=ctx["seed"], sample_rate=ctx.get("sample_rate", 0.1))
+    if not cands:
+        return dict(stats=dict(paths=0, exhaustive=True), validated=0, confirmed=[], unconfirmed=[], n_mismatch=0, mismatches=[],
+                    samples=[], gaps={}, counters={"not_applicable": 1}, notes={})
+    cur = {}
+
+    def body():
+        cur.clear()
+        k = core.choose("site", len(cands)) if len(cands) > 1 else 0
+        q = cands[k][0]
+        text = q.default_text()
+        cur["case"] = dict(name=q.name, text=text, c07v=dict(chunk, tier=ctx["tier"], site=k))
+        o = P.run_text(q.name, text, monitor=True)
+        vs = depth_invariants(q, o)
+        hint = cands[k][3]
+        nxt = ""
+        ln = cands[k][1][0]
+        if ln < len(q.lines):
+            nl = q.lines[ln]
+            nxt = "+next:" + str(nl.meta.get("kw") or nl.meta.get("stmt") or nl.kind)
+        cur["case"]["suffix"] = f":{chunk['violating']}:{hint}{nxt}"
+        for fp, what in vs:
+            col.violation(fp + cur["case"]["suffix"], what + f" (violating variant {chunk['violating']}, {hint}{nxt})", cur["case"])
+            cur["viol"] = True
+        return dict(kind=o.kind, errors=[list(e) for e in o.errors])
+
+    def on_path(res, status):
+        if status == "gap":
+            col.gap(str(res)[:100])
+        elif status == "timeout":
+            col.count("slow_paths_not_analysed")
+        elif status == "ok" and not cur.get("viol") and col.want_witness():
+            col.add_witness(cur["case"], conc(res))
+    ex.explore(body, on_path=on_path, max_time=max(1.0, min(ctx.get("chunk_time", 60), ctx["deadline"] - time.time())), path_alarm=10.0)
+    res = col.finish()
+    res["stats"] = ex.stats()
+    return res
+
+
 def run_chunk(chunk, ctx):
     if "commented" in chunk:
         return run_commented(chunk, ctx)
+    if "violating" in chunk:
+        return run_violating(chunk, ctx)
     ex = Explorer()
     core.set_run(ex)
     c07 = ctx.get("prop") == "C07"
@@ -286,6 +371,13 @@ def run_commented(chunk, ctx):
 
 def replay(case):
     suffix = case.get("suffix", "")
+    if case.get("c07v"):
+        from harness import violations as V
+        ch = case["c07v"]
+        base = F.maximal_programs()[ch["maxi"]] if "maxi" in ch else F.program(ch["seed"], ch["tier"], ch["kind"])
+        q = V.candidates(base, ch["violating"])[ch["site"]][0]
+        o = P.run_text(case["name"], case["text"], monitor=True)
+        return dict(digest=dict(kind=o.kind, errors=[list(e) for e in o.errors]), violations=[[v[0] + case.get("suffix", ""), v[1]] for v in depth_invariants(q, o)])
     if case.get("c07") and "commented" in case["c07"]:
         ch = case["c07"]
         prog, _ = commented(comment_base(ch["tier"], _ckey(ch)), ch["boundary"], ch["form"])
